@@ -62,7 +62,16 @@ def run_shard(ctx: Any) -> None:
         case = corpus_case(ctx.rng("corpus", index), index // 8) if index % 8 == 5 else None
         if case is not None:
             ctx.count("shipped_example_input_cases")
-        _one(ctx, expected, case or make_case(ctx.rng("case", index)), f"c13-{index}")
+        case = case or make_case(ctx.rng("case", index))
+        if index % 16 == 9 and not case.get("corpus"):
+            # one asset carries a transfer whose fee is worth less than 5e-14 fiat: no taxable event (KF4), and the report says so
+            from rpv import families
+
+            first = sorted(case["hists"])[0]
+            case["hists"][first] = families.tiny_fee_transfer(ctx.rng("tiny-fee", index), first)
+            case["from"] = case["to"] = None
+            ctx.count("reports_with_a_transfer_fee_worth_less_than_5e-14")
+        _one(ctx, expected, case, f"c13-{index}")
 
 
 def replay(ctx: Any, case: Dict[str, Any]) -> None:
